@@ -244,17 +244,27 @@ def check_parse_die(ctx, w):
         ctx.ob('W-DIE', f.construct, 'attr_offset = tell() before the value is parsed',
                'attr_offset = stream.tell()' in order and order.index('attr_offset = stream.tell()') < [i for i, s in enumerate(order) if s.startswith('if form')][0],
                got=order)
-        chains = dispatch.find_chain(loops[0], dispatch.subject_name('form'), min_branches=2)
+        # the three value cases, read off the paths through one loop iteration and the values the path leaves in `value` and
+        # `raw_value` (so that the arrangement of the branches and where _translate_attr_value is called do not matter)
         got = {}
-        if chains:
-            for b in chains[0]:
-                asg = dict((U(s.targets[0]), expr.nfs(s.value, env)) for s in b.body if isinstance(s, ast.Assign))
-                key = 'else' if b.is_else else tuple(sorted(b.keys))
-                got[key] = asg
+        implicit = expr.spec_cond("form == 'DW_FORM_implicit_const'")
+        indirect = expr.spec_cond("form == 'DW_FORM_indirect'")
+        for p in paths.enum_paths(lb):
+            facts = expr.Facts(expr.CP(expr.cond_str(t, env), pol) for t, pol in p.conds())
+            if facts.contradiction or p.end[0] != 'fall':
+                continue
+            case = 'implicit_const' if facts.get(implicit) is True else ('indirect' if facts.get(indirect) is True else
+                                                                          ('plain' if facts.get(implicit) is False and facts.get(indirect) is False else '?'))
+            stm = [U(x) for x in p.stmts()]
+            resolved = any('self._resolve_indirect()' in x for x in stm)
+            parsed = any('.parse_stream(stream)' in x for x in stm)
+            val = expr.path_value(p, ast.Name(id='value', ctx=ast.Load()), env)
+            raw = expr.path_value(p, ast.Name(id='raw_value', ctx=ast.Load()), env)
+            got.setdefault(case, set()).add((val, raw, resolved, parsed))
         want = {
-            ('DW_FORM_implicit_const',): {'value': 'value', 'raw_value': 'value'},
-            ('DW_FORM_indirect',): {'(form, raw_value, indirection_length)': '_resolve_indirect(self)', 'value': '_translate_attr_value(self,form,raw_value)'},
-            'else': {'raw_value': 'parse_stream(index(Dwarf_dw_form,form),stream)', 'value': '_translate_attr_value(self,form,raw_value)'},
+            'implicit_const': {('value', 'value', False, False)},
+            'indirect': {('_translate_attr_value(self,form,raw_value)', 'raw_value', True, False)},
+            'plain': {('_translate_attr_value(self,form,parse_stream(index(Dwarf_dw_form,form),stream))', 'parse_stream(index(Dwarf_dw_form,form),stream)', False, True)},
         }
         ctx.ob('W-DIE', f.construct, 'implicit_const / indirect / plain value cases', got == want, got=got, expected=want,
                msg='attribute value cases differ: implicit_const consumes nothing, indirect resolves, others parse Dwarf_dw_form[form]')
